@@ -333,22 +333,25 @@ impl Ctx {
             self.list("args", vec![a, b].iter(), |c, e| c.expr(e));
             return;
         }
-        if let Ok((a, p)) = m.parse_body_with(|input: syn::parse::ParseStream| {
+        if let Ok((a, p, g)) = m.parse_body_with(|input: syn::parse::ParseStream| {
             let a: Expr = input.parse()?;
             let _: Token![,] = input.parse()?;
             let p = Pat::parse_multi_with_leading_vert(input)?;
-            let _: Option<Token![,]> = input.parse()?;
-            if !input.is_empty() {
-                // guard: `if cond`
+            let mut g: Option<Expr> = None;
+            if input.peek(Token![if]) {
                 let _: Token![if] = input.parse()?;
-                let _g: Expr = input.parse()?;
+                g = Some(input.parse()?);
             }
-            Ok((a, p))
+            let _: Option<Token![,]> = input.parse()?;
+            Ok((a, p, g))
         }) {
             self.child_expr("scrutinee", &a);
             self.comma();
             self.key("pat");
             self.pat(&p);
+            if let Some(g) = &g {
+                self.child_expr("guard", g);
+            }
             return;
         }
         self.comma();
